@@ -51,9 +51,9 @@ TRUSTED = ['modelled (Pfst/Sub.lean): subn driver = search/walk order for on=ent
            'elements to their index in the virtual field _args/_bases (source order; the harness passes the REAL field and '
            'pfield.idx of every captured element and the layout from CPython positions) and the _get_slice range',
            'not modelled: the matcher (parameter; C17), copy/put/coercion of source text (C01/C04/C19; the sweep checks the '
-           'result with CPython), slots other than Name (identifier slots; string slots are in the reference sweep only, not in the model; Dict/MatchMapping "...": pairs, '
+           'result with CPython), slots other than Name (identifier slots filled from a captured Name and string slots are in the reference sweep only, not in the model; Dict/MatchMapping "...": pairs, '
            'comprehension/ExceptHandler/match_case forms), the special parents BoolOp/Compare/withitem/arguments/MatchClass/'
-           'keyword, __FSO_ on a slice and __FSS_ on a node (container coercions), callback/callback_after, self_/recurse/'
+           'keyword; __FSO_ on a slice (put as one List/Tuple/Set element) and __FSS_ on a node (its elements spliced) are judged by the reference sweep, the model reports them as outside its set; callback/callback_after, self_/recurse/'
            'scope/back/asts, f-string parents; generated cases falling there are tallied as skipped',
            'the walk order of the model is the order of field blocks; programs whose syntax order interleaves fields '
            '(Dict, Compare chains, arguments with defaults) are skipped for count>0 only; intermediate trees (on=leave, loop) with '
@@ -501,6 +501,15 @@ def _sweep_case0(job):
                     cls = 'slice-no-descent'
             except Exception:
                 pass
+        if cls == 'tree-differs' and s['nested'] and s['on'] == 'enter' and '__FSS_' in job['tmpl']:
+            # does the result equal the variant in which the first element spliced from the whole match is skipped?
+            try:
+                q, qu, qt, _ = REF.reference(root0, job['src'], pat, job['tmpl'], job['cat'], s['nested'], s['count'],
+                                             s['loop'], s['on'], quirk='first-dirty', ctx=s.get('ctx', False))
+                if L.to_gen(q) == real['tree'] and (qu, qt) == (real['unique'], real['total']):
+                    cls = 'first-spliced-element-skipped'
+            except Exception:
+                pass
         if cls == 'tree-differs' and info.get('matcher') is not None and info['matcher'].noncontig:
             # a quantifier captured elements that are not consecutive in the (virtual) list: does the result hold the
             # whole first..last range instead of the captured elements?
@@ -545,6 +554,8 @@ def _fail_sig(job, cls):
         return 'C18|stmt-pattern|multi-statement-template|enter,nested|slice-no-descent'
     if cls == 'range-includes-uncaptured':   # the result equals the reference that fills the first..last range of the list
         return 'C18|quantifier-over-args-or-keywords|interleaved-arguments|any|range-includes-uncaptured'
+    if cls == 'first-spliced-element-skipped':
+        return 'C18|whole-match|__FSS_-in-list-or-tuple-slot|enter,nested|first-spliced-element-skipped'
     if cls == 'constant-value-stale':   # C01 fails and the only difference is the value of slot-bearing string constants
         return 'C18|any|string-slot|any|constant-value-stale'
     return f'C18|{job["shape"]}|{job["placement"]}|{L.setting_name(job["set"])}|{cls}'
@@ -554,7 +565,7 @@ def sweep_jobs(ctx, n, layouts):
     import corpus
     rng = random.Random(ctx.rng.random())
     jobs = L.gen_jobs(rng, n) + L.gen_chain_jobs(rng, n // 3, allow_nested=False) + L.gen_arglike_jobs(rng, n // 4) \
-        + L.gen_ctx_jobs(rng, n // 6)
+        + L.gen_ctx_jobs(rng, n // 6) + L.gen_override_jobs(rng, n // 6)
     # the reference covers loop and nested separately
     for j in jobs:
         if j['set']['loop'] is not False and j['set']['nested'] and j['set']['on'] == 'enter':
